@@ -7,6 +7,10 @@ Decided clauses:
   R16.2 sodium_unpad: every load through `buf` is preceded by padded_buflen >= blocksize and
         blocksize != 0, and its address is buf + padded_buflen - 1 - i with i < blocksize
         (affine form), i.e. inside the final block.
+  R16.3 (E11 bit-flow on the -O2 IR, value source) the constant-time position test is not narrowed:
+        every bit (below bit 48) of the loop-position comparison (i ^ xpadlen in sodium_pad, and any
+        such xor in sodium_unpad) can influence the stored padding bytes / the verdict - a comparison
+        truncated to 32 bits treats positions that differ only above bit 31 as equal.
 NOT decided: position of the 0x80 marker, round-trip, the rejection set (value-level).
 """
 from .. import terms as T
@@ -107,3 +111,37 @@ def run(ctx, chk):
             rd = [e for e in p.events if e.kind == "load" and T.root(e.addr) == BUFU]
             chk.ob("R16.2", unpad, "padded_buflen < blocksize: rejected without reading", not rd and p.ret_zeroness() == "NZ",
                    loc=unpad.loc(p.end_iid), path=p if rd else None, key="R16.2 sodium_unpad short")
+    width_rule(ctx, prog, chk)
+
+
+def width_rule(ctx, prog, chk):
+    """R16.3: the position comparison is not narrowed"""
+    from .. import bitflow, e9
+    pad = prog.need("sodium_pad", rule="R16.3")
+    bf = bitflow.BitFlow(e9.O2Unit(ctx, pad.unit))
+    n = 0
+    for fname, sinks, what in (("sodium_pad", ("stores",), "the stored padding bytes"),
+                               ("sodium_unpad", ("stores", "ret", "branches"), "the verdict / reported length")):
+        f = prog.need(fname, rule="R16.3")
+        if f.name not in bf.unit.fns:
+            raise AnalysisBroken("R16.3: %s vanished from the -O2 IR" % fname)
+        jf = bf.unit.fns[f.name]
+        insts = jf["insts"]
+        hdr_phis = {i for i, ins in enumerate(insts) if ins["op"] == "phi" and jf["blocks"][ins["b"]].get("loophdr")
+                    and ins["ty"] in ("i64", "i32")}
+        # position comparisons: xor of the loop position with another length-typed value, inside the loop
+        cmps = [i for i, ins in enumerate(insts) if ins["op"] == "xor" and ins["ty"] == "i64" and
+                any(o[0] == "v" and o[1] in hdr_phis for o in ins["ops"]) and not any(o[0] == "i" for o in ins["ops"])]
+        if fname == "sodium_pad" and not cmps:
+            raise AnalysisBroken("R16.3: no position comparison (i ^ xpadlen) found in sodium_pad")
+        for c in cmps:
+            blind = []
+            for bit in range(48):
+                r = bf.analyse_value(f.name, c, bit)
+                n += 1
+                if not any(r[k] for k in sinks):
+                    blind.append(bit)
+            chk.ob("R16.3", f, "every bit (0..47) of the position comparison at %s can influence %s" % (f.loc(), what), not blind,
+                   detail="bits %s of (position ^ marker position) are dropped before the mask is formed: positions that differ only "
+                   "there are treated as equal" % blind[:6] if blind else "", key="R16.3 %s" % fname)
+    chk.floor("R16.3", "(position comparison, bit) flows analysed", n, 48)
